@@ -5,7 +5,7 @@
 set -u
 name="$1"; demo="$2"; shift 2; props="$*"
 export GOFLAGS=-mod=mod GOPROXY=off GOSUMDB=off GOTOOLCHAIN=local
-src=/tmp/wt/$name
+src=${SEED_SRC:-/tmp/wt/$name}
 vs=/tmp/vs/$name
 [ -f "$src/PATCH.diff" ] || { echo "no PATCH.diff in $src"; exit 2; }
 rm -rf "$vs"; git -C /repo worktree prune; git -C /repo worktree add -q --detach "$vs" HEAD || exit 2
